@@ -25,7 +25,13 @@ def file_map(gen, fcp, tmp):
 
     mod = importlib.import_module("fcp_" + gen)
     out = os.path.join(tmp, "o_" + gen)
-    res = mod.Generator().generate(fcp, {"output": out, "templates": {}, "skels": {}})
+    if GENERATORS is not None and gen in GENERATORS:
+        generator = GENERATORS[gen]
+    else:
+        generator = mod.Generator()
+        if GENERATORS is not None and REUSE_GENERATORS:
+            GENERATORS[gen] = generator
+    res = generator.generate(fcp, {"output": out, "templates": {}, "skels": {}})
     m = {}
     order = []
     for f in res:
@@ -41,10 +47,17 @@ def file_map(gen, fcp, tmp):
     return m, order
 
 
+DEFAULT_LOGGER = False  # history / reuse modes: the documented call get_fcp(path) with its default logger
+REUSE_GENERATORS = False
+GENERATORS = {}  # generator-reuse mode: one Generator object per plug-in for the whole process
+
+
 def parse(path):
     from fcp.parser import get_fcp
     from fcp.error import Logger
 
+    if DEFAULT_LOGGER:
+        return get_fcp(path)
     return get_fcp(path, Logger({}))
 
 
@@ -109,6 +122,9 @@ def main():
             for path in job["schemas"]:
                 out["results"][path] = generate_all(path, tmp)
         elif job["mode"] == "history":
+            global DEFAULT_LOGGER, REUSE_GENERATORS
+            DEFAULT_LOGGER = True
+            REUSE_GENERATORS = bool(job.get("reuse_generators"))
             r = random.Random(job["seed"])
             for path in job["schemas"]:
                 others = [p for p in job["schemas"] if p != path] or [path]
